@@ -228,6 +228,13 @@ impl Property for C04 {
             sc.note = "tight-system-budget".into();
         } else {
             sc.note = "explicit-limits".into();
+            if rng.chance(1, 40) && !sc.opts.iter().any(|o| matches!(o, Opt::S(_))) {
+                // real children: they receive what the seam recorded, and they cannot read
+                // xargs' own input stream
+                sc.real = Some(crate::xargs::RealKind::Simchild);
+                sc.cmd[0] = "@REAL".into();
+                sc.note = "real-simchild".into();
+            }
         }
         let cfg = resolve(&sc.opts);
         let sep = match cfg.delim {
@@ -319,6 +326,12 @@ impl Property for C04 {
             }
         } else {
             judge.judge(&obs, rep);
+        }
+        if sc.real.is_some() {
+            rep.probe("real_child_processes");
+            if rep.violation.is_none() {
+                judge.judge_child_log(&obs, rep);
+            }
         }
         if rep.want_sample {
             rep.sample = Some(json!({
